@@ -5,7 +5,6 @@ import (
 	"strings"
 
 	"golang.org/x/net/html"
-	"golang.org/x/net/html/atom"
 )
 
 // C14: attribute binding on one probe element.
@@ -74,37 +73,69 @@ func (a c14Attr) Coq() string {
 }
 
 func c14Probe(out string) (Obs, bool) {
-	ctx := &html.Node{Type: html.ElementNode, Data: "body", DataAtom: atom.Body}
-	ctx.DataAtom = 0
+	all := c14ProbeAll(out)
+	if len(all) == 0 {
+		return L(), false
+	}
+	return all[0], true
+}
+
+// the attribute lists of every probe element of the output, in document order
+func c14ProbeAll(out string) []Obs {
 	nodes, err := html.ParseFragment(strings.NewReader("<div>"+out+"</div>"), nil)
 	if err != nil {
-		return A("parse-error"), false
+		return []Obs{A("parse-error")}
 	}
-	var found *html.Node
+	var res []Obs
 	var walk func(n *html.Node)
 	walk = func(n *html.Node) {
 		if n.Type == html.ElementNode && n.Data == "p" {
 			for _, a := range n.Attr {
 				if a.Key == "data-m" {
-					found = n
+					var xs []Obs
+					for _, a := range n.Attr {
+						xs = append(xs, L(A(a.Key), A(a.Val)))
+					}
+					res = append(res, L(xs...))
+					break
 				}
 			}
 		}
-		for c := n.FirstChild; c != nil && found == nil; c = c.NextSibling {
+		for c := n.FirstChild; c != nil; c = c.NextSibling {
 			walk(c)
 		}
 	}
 	for _, n := range nodes {
 		walk(n)
 	}
-	if found == nil {
-		return L(), false
+	return res
+}
+
+// the attribute with every path it reads taken from the loop variable r
+func (a c14Attr) under(prefix string) c14Attr {
+	b := a
+	re := func(s string) string { return strings.ReplaceAll(s, "{{ ", "{{ "+prefix) }
+	switch a.kind {
+	case "static":
+		if a.key == "v-show" {
+			b.val = prefix + a.val
+		} else if !strings.HasPrefix(a.key, "[") {
+			b.val = re(a.val)
+		}
+	case "bound":
+		b.val = prefix + a.val
+	case "boundinterp":
+		b.val = re(a.val)
+	case "obj":
+		b.pairs = nil
+		for _, p := range a.pairs {
+			if p.lit == nil {
+				p.path = prefix + p.path
+			}
+			b.pairs = append(b.pairs, p)
+		}
 	}
-	var xs []Obs
-	for _, a := range found.Attr {
-		xs = append(xs, L(A(a.Key), A(a.Val)))
-	}
-	return L(xs...), true
+	return b
 }
 
 func init() { streams["C14"] = runC14 }
@@ -130,6 +161,24 @@ func runC14(r *Run) {
 		KV{K: "lm", V: VList("", VMap(KV{K: "on", V: VBool(true)}), VMap(KV{K: "on", V: VBool(false)}))},
 		KV{K: "not", V: VStr("kw")}, KV{K: "in", V: VInt("int", 0)}, KV{K: "let", V: VBool(true)},
 	).Normalize()
+	// the rows of the loop variant: the same names with other values and other truthiness from row to row
+	flip := func(pairs ...KV) Val {
+		m := VMap(append([]KV{}, data.M...)...)
+		for _, kv := range pairs {
+			for i := range m.M {
+				if m.M[i].K == kv.K {
+					m.M[i].V = kv.V
+				}
+			}
+		}
+		return m.Normalize()
+	}
+	rows := []Val{
+		data,
+		flip(KV{K: "t", V: VBool(false)}, KV{K: "f", V: VBool(true)}, KV{K: "s", V: VStr("")}, KV{K: "e", V: VStr("full")}, KV{K: "n", V: VInt("int", 0)}, KV{K: "z", V: VInt("int", 5)}, KV{K: "cls", V: VStr("r2")}, KV{K: "css", V: VStr("margin:2px")}, KV{K: "fs", V: VStr("")}),
+		data,
+		flip(KV{K: "t", V: VBool(false)}, KV{K: "nil", V: VStr("set")}, KV{K: "list", V: VList("", VStr("only"))}, KV{K: "cls", V: VStr("")}, KV{K: "css", V: VStr("")}, KV{K: "u", V: VInt("uint16", 0)}),
+	}
 	// plain paths, and paths only the path resolver can follow (a hyphenated key, a dotted numeric index, a name
 	// that is a keyword of the expression language)
 	paths := []string{"s", "e", "t", "f", "n", "z", "z8", "u", "fl", "nil", "list", "cls", "css", "fs", "m.k", "m.zz", "zz",
@@ -259,5 +308,51 @@ func runC14(r *Run) {
 		r.Count(fmt.Sprintf("attrs:%d", len(attrs)-1))
 		coq := fmt.Sprintf("{| c_data := %s; c_attrs := %s |}", data.Coq(), coqList(attrs, c14Attr.Coq))
 		r.Case("attrs", coq, obs, map[string]any{"template": src}, map[string]string{}, inter > 0)
+		// the same element as the body of a loop: every row has values of its own, and what one row's evaluation does
+		// to the element must not show on the next (each row: the model's answer over that row's values)
+		if c%4 == 0 && err == nil {
+			kw := false
+			for _, a := range attrs {
+				t := a.Source()
+				kw = kw || strings.Contains(t, "v-once") || strings.Contains(t, "not") || strings.Contains(t, `"in"`) || strings.Contains(t, " in") || strings.Contains(t, "let")
+			}
+			if kw {
+				continue
+			}
+			var lattrs []c14Attr
+			var lparts []string
+			for _, a := range attrs {
+				la := a.under("r.")
+				lattrs = append(lattrs, la)
+				lparts = append(lparts, la.Source())
+			}
+			lsrc := Pick(rr, []string{`<div v-for="r in rows"><p %s>x</p></div>`, `<p v-for="r in rows" %s>x</p>`, `<template v-for="(i, r) in rows"><p %s>x</p></template>`, `<ul><li v-for="r in rows"><b>b</b><p %s>x</p></li></ul>`})
+			lsrc = fmt.Sprintf(lsrc, strings.Join(lparts, " "))
+			ld := data.Go().(map[string]any)
+			var rowsGo []any
+			for _, rw := range rows {
+				rowsGo = append(rowsGo, rw.Go())
+			}
+			ld["rows"] = rowsGo
+			lout, lerr := c03RenderAny(lsrc, ld)
+			var got []Obs
+			if lerr == nil {
+				got = c14ProbeAll(lout)
+			}
+			for i, rw := range rows {
+				var o Obs
+				switch {
+				case lerr != nil:
+					o = L(A("error"), A(lerr.Error()))
+				case i < len(got):
+					o = got[i]
+				default:
+					o = L()
+				}
+				lcoq := fmt.Sprintf("{| c_data := %s; c_attrs := %s |}", VMap(append(append([]KV{}, data.M...), KV{K: "r", V: rw})...).Normalize().Coq(), coqList(lattrs, c14Attr.Coq))
+				r.Case("attrs", lcoq, o, map[string]any{"template": lsrc, "row": i, "output": lout}, map[string]string{"shape": "loop"}, true)
+			}
+			r.Count("loop-rows")
+		}
 	}
 }
